@@ -6,6 +6,7 @@ import RosuModel.Model.DetWire
 import RosuModel.Model.AttrsWire
 import RosuModel.Model.ModsWire
 import RosuModel.Model.StrainsWire
+import RosuModel.Model.GenStateWire
 
 open Rosu
 
@@ -37,6 +38,7 @@ def handle (line : String) : String :=
   | ["DV", variant, kind, decay, k, factors, pushes] => StrainsWire.handleDV variant kind decay k factors pushes
   | ["SKILL", kind, fuel, objs] => StrainsWire.handleSKILL kind fuel objs
   | ["SECT", l, fuel, times] => StrainsWire.handleSECT l fuel times
+  | "GS" :: mode :: args => GenState.handleGS mode args
   | _ => "bad-op"
 
 partial def loop (h : IO.FS.Stream) (out : IO.FS.Stream) : IO Unit := do
